@@ -10,6 +10,7 @@ import (
 	"net/http"
 	"os"
 	"os/exec"
+	"path/filepath"
 	"sort"
 	"strings"
 	"syscall"
@@ -698,7 +699,21 @@ func TestC14(t *testing.T) {
 
 // filterStacks keeps the goroutines of a SIGQUIT dump that are inside jiva code.
 func filterStacks(dump string) string {
+	if d := os.Getenv("VERIF_DUMP_DIR"); d != "" {
+		os.MkdirAll(d, 0700)
+		os.WriteFile(filepath.Join(d, fmt.Sprintf("goroutines-%d.txt", time.Now().UnixNano())), []byte(dump), 0600)
+	}
 	var out []string
+	// goroutines in the product's request handlers and in the controller first
+	var first, rest []string
+	for _, g := range strings.Split(dump, "\n\n") {
+		if strings.Contains(g, "controller.(*Controller)") || strings.Contains(g, "controller/rest.(*Server)") {
+			first = append(first, g)
+		} else {
+			rest = append(rest, g)
+		}
+	}
+	dump = strings.Join(append(first, rest...), "\n\n")
 	for _, g := range strings.Split(dump, "\n\n") {
 		if strings.Contains(g, "openebs/jiva") && !strings.Contains(g, "monitorPing") && !strings.Contains(g, "CreateHoles") {
 			lines := strings.Split(g, "\n")
